@@ -15,3 +15,33 @@ import Amshan.Lemmas.P1ParseRTDecode
   * P1ParseRTBlock  — `splitLines (render b)`, blank lines, the fold over the lines
   * P1ParseRTDecode — `decodeItem`, clock text, `decodeReadout`
 -/
+open Amshan Amshan.Gen Amshan.Cosem Amshan.P1Parse Amshan.P1BlockSpec Amshan.Py
+namespace Amshan.P1ParseRT
+
+/-- a rendered well-formed block consists of printable characters, CR and LF -/
+theorem render_no_control (b : List LineDesc) (h : ∀ l ∈ b, l.WF) :
+    ∀ c ∈ render b, 32 ≤ c ∨ c = 13 ∨ c = 10 := by
+  intro x hx
+  unfold render at hx
+  rw [List.mem_flatMap] at hx
+  obtain ⟨l, hl, hx⟩ := hx
+  unfold renderLine at hx
+  rw [List.mem_append] at hx
+  rcases hx with hx | hx
+  · have := lineContent_printable (h l hl) x hx
+    unfold printable at this
+    omega
+  · cases hcr : l.crlf <;> rw [hcr] at hx <;> simp at hx <;> omega
+
+/-- `decode_p1_readout_content` on a rendered well-formed block: its guard passes, the parser returns
+    the transmitted data sets, and these are decoded (or refused when there are none) -/
+theorem decodeContent_render (b : List LineDesc) (h : ∀ l ∈ b, l.WF) :
+    decodeContent (render b) =
+      if ((b.flatMap (·.sets)).map convSet).isEmpty then .error .valueError
+      else decodeParsed ((b.flatMap (·.sets)).map convSet) := by
+  rw [decodeContent_of_no_control _ (render_no_control b h)]
+  obtain ⟨n, hn⟩ := parseContent_render b h
+  unfold decodeParsedContent
+  rw [hn]
+
+end Amshan.P1ParseRT
